@@ -139,6 +139,12 @@ class World:
         through.__name__ = "H"
         self.H = h.generator(through)
 
+        def uncached(params: P) -> h.Module:
+            counts["U"] = counts.get("U", 0) + 1
+            return G(params)
+        uncached.__name__ = "U"
+        self.U = h.generator(enable_cache=False)(uncached)  # hands G's memoised module on, every time it is called
+
         def outer(params: P) -> h.Module:
             counts["O"] = counts.get("O", 0) + 1
             m = h.Module()
@@ -273,7 +279,8 @@ def run_case(case, history="plain"):
         return out
     equal = py_eq
     pattern = case.get("pattern", "direct")
-    gens = {"direct": (w.G, w.G), "passthrough": (w.H, w.G), "passthrough2": (w.G, w.H), "nested": (w.O, w.O), "both_through": (w.H, w.H)}[pattern]
+    gens = {"direct": (w.G, w.G), "passthrough": (w.H, w.G), "passthrough2": (w.G, w.H), "nested": (w.O, w.O), "both_through": (w.H, w.H),
+            "uncached_through": (w.U, w.G), "uncached_both": (w.U, w.U)}[pattern]
 
     def call(gen, vals, p, form):
         if form == "kw":
@@ -341,7 +348,7 @@ def run_case(case, history="plain"):
     try:
         pkg = h.to_proto(top)
         names = [pm.name for pm in pkg.modules if not pm.name.endswith(".Top")]
-        inner = {"direct": 0, "passthrough": 0, "passthrough2": 0, "both_through": 0, "nested": 1}[pattern]
+        inner = {"direct": 0, "passthrough": 0, "passthrough2": 0, "both_through": 0, "nested": 1, "uncached_through": 0, "uncached_both": 0}[pattern]
         want = (1 if m1 is m2 else 2) * (1 + inner) if not (pattern == "nested" and not equal) else 4
         if pattern == "nested":
             want = 2 if equal else 4
@@ -414,7 +421,9 @@ def strategies():
             return st.tuples(st.integers(0, 2), st.sampled_from(["", "a", "a b"])).map(lambda t: {"t": "nested", "v": {"x": t[0], "s": t[1]}})
         if code in ("scalar", "prefixed"):
             pr = st.one_of(st.sampled_from([["1000", -3], ["1", 0], ["0.001", 3], ["1", 3], ["1000", 0], ["1.0", 0], ["2.50", -6], ["0.0025", -3]]),
-                           st.tuples(st.integers(-999, 999).map(str), st.sampled_from(PREFIX_EXPS)).map(list)).map(lambda v: {"t": "pref", "v": v})
+                           st.tuples(st.integers(-999, 999).map(str), st.sampled_from(PREFIX_EXPS)).map(list),
+                           # long numbers (29..40 digits): results of exact arithmetic; their neighbours differ in the last digit only
+                           st.tuples(st.integers(10**28, 10**40).map(str), st.sampled_from(PREFIX_EXPS)).map(list)).map(lambda v: {"t": "pref", "v": v})
             if code == "prefixed":
                 return pr
             return st.one_of(pr, st.integers(-5, 5).map(lambda i: {"t": "int", "v": str(i)}), st.sampled_from(["w/5", "1e3", "x y"]).map(J("str")),
@@ -448,7 +457,9 @@ def strategies():
             return {"t": "str", "v": "None"} if code == "ostr" else {"t": "int", "v": "0"} if code == "oint" else {"t": "float", "v": (0.0).hex()} if code == "ofloat" else None
         if t == "pref":
             d = Decimal(v["v"][0])
-            y = d + Decimal(1).scaleb(d.as_tuple().exponent - draw(st.integers(0, 18)))
+            with __import__("decimal").localcontext() as ctx:
+                ctx.prec = 200
+                y = d + Decimal(1).scaleb(d.as_tuple().exponent - draw(st.sampled_from([0, 0, 1, 5, 18])))
             return {"t": "pref", "v": [str(y), v["v"][1]]}
         if t == "nested":
             return {"t": "nested", "v": {"x": v["v"]["x"], "s": v["v"]["s"] + " "}}
@@ -490,7 +501,7 @@ def strategies():
             strs_r = st.sampled_from(["", "x", "x y", "a=1", "None"])
             return {"pattern": "recursive", "fields": [["n", "int"], ["s", "str"]], "vals1": {}, "vals2": {},
                     "n1": draw(st.integers(0, 4)), "n2": draw(st.integers(0, 4)), "s1": draw(strs_r), "s2": draw(strs_r)}
-        pattern = draw(st.sampled_from(["direct", "direct", "direct", "passthrough", "passthrough2", "nested", "both_through"]))
+        pattern = draw(st.sampled_from(["direct", "direct", "direct", "passthrough", "passthrough2", "nested", "both_through", "uncached_through", "uncached_both"]))
         case = {"fields": fields, "vals1": vals1, "vals2": vals2, "pattern": pattern,
                 "form1": draw(st.sampled_from(["kw", "inst"])), "form2": draw(st.sampled_from(["kw", "inst"]))}
         if draw(st.integers(0, 5)) == 0:
